@@ -293,6 +293,7 @@ func TestWorker(t *testing.T) {
 		}
 		prog := gp.Gen(g, tier)
 		prog.Prop = gp.ID
+		spice(g, prog)
 		ch := simrt.NewChooser(seed ^ 0x5bd1e995)
 		curRun = &runCtx{prop: propID, prog: prog, ch: ch, idx: idx, seed: seed, base: base, tier: tier}
 		res := RunOne(t, gp, prog, ch, hashMode)
